@@ -114,14 +114,13 @@ func (c *c05state) afterLock(cause string) {
 		// The buffer was reachable from the manager while unlocked, is not
 		// any more, and was dropped without being cleared (for an address
 		// key: the cache entry was evicted by MarkUsed or replaced).
-		kind := b.Kind
-		switch kind {
+		kind := "evicted-cache-entry"
+		switch b.Kind {
 		case "privKeyCT", "lastAddrPrivKeyCT", "scriptClearText", "witnessScriptClearText":
-			kind += ":dropped-from-cache-uncleared"
 		default:
-			kind += ":old-buffer-uncleared"
+			kind = b.Kind + ":old-buffer-uncleared"
 		}
-		bads = append(bads, bad{kind, b.Where, "buffer captured while unlocked was dropped by the manager without being zeroed"})
+		bads = append(bads, bad{kind, b.Kind + " " + b.Where, "buffer captured while unlocked was dropped by the manager (cache entry evicted or replaced) without being zeroed"})
 	}
 	c.aliases = map[uintptr]waddrmgr.VerifSecretBuf{}
 	seen := map[string]bool{}
